@@ -1,7 +1,9 @@
 """C06 — handed-out paths are live and the manager's state stays bounded (side clauses)."""
 import facts as FX
 import templates as T
-from facts import tokens, fmt, short, walk
+import re
+import panic as PN
+from facts import tokens, fmt, short, walk, strip_sites
 
 # thorough tier: release configuration only — the dev-configuration pass reports the path() hand-out under a /dev key and a loop-shape report in merge_new_paths_algo that are not triaged; not registered until they are (DESIGN.md 12.1)
 THOROUGH_CFGS = ["release"]
@@ -184,9 +186,134 @@ def run(F, R, tier, cfg):
                 R.violation("GS-validate", "validate/%s-vs-%s" % (a, c2), "validator no longer compares %s with %s" % (a, c2), F.loc("scion_stack::path::manager::MultiPathManagerConfig::validate"))
 
     issue_memory(F, R)
+    best_valid_rule(F, R)
+    backoff_ceiling_rule(F, R)
 
 
 PIM = "scion_stack::path::manager::PathIssueManager::"
+
+
+BEST = "scion_stack::path::manager::pathset::PathSet::<F>::best_path"
+EXPFN = "::check_path_expiry"
+
+
+def _valid_test(F, o):
+    """bool origin `o` is `check_path_expiry(..) == Valid` (returns 'eq') or `!= Valid` ('ne'); else None"""
+    pol = True
+    o = strip_sites(o)
+    while o[0] == "un" and o[1] == "Not":
+        o, pol = o[2], not pol
+    if o[0] == "call" and re.search(r"::PartialEq::(eq|ne)$", o[1]) and len(o[2]) == 2:
+        a, c = [PN._peel_refs(x) for x in o[2]]
+        for x, y in ((a, c), (c, a)):
+            if x[0] == "call" and x[1].endswith(EXPFN) and "ExpiryState::Valid" in fmt(y, 200):
+                kind = "eq" if o[1].endswith("::eq") else "ne"
+                return kind if pol else {"eq": "ne", "ne": "eq"}[kind]
+    return None
+
+
+def best_valid_rule(F, R):
+    """GS-best-valid: PathSet::best_path — the candidate that replaces the active path — is Some(p) only for a p with
+    check_path_expiry(p, now, threshold) == Valid; the loop form (`if state != Valid { continue }`), the iterator form
+    (`iter().find(|p| state == Valid)`) and or_else/or combinations of them are recognised; any other source of Some
+    (first(), a weaker test such as != Expired) is a violation: an expired or near-expiry path becomes the active path."""
+    b = F.body(BEST)
+    if b is None:
+        R.anchor_missing(BEST)
+        return
+    R.fn(BEST)
+    problems = []
+    n_src = [0]
+
+    def closure_ok(q):
+        qb = F.body(q)
+        if qb is None:
+            return False
+        return _valid_test(F, qb.local_origin(0)) == "eq"
+
+    def src(t):
+        t0 = strip_sites(t)
+        if t0[0] == "phi":
+            for a in t0[1]:
+                if isinstance(a, tuple):
+                    src_raw = [x for x in t[1] if isinstance(x, tuple) and strip_sites(x) == a]
+                    src(src_raw[0] if src_raw else a)
+            return
+        if t0[0] == "agg" and t0[1][0] == "adt" and t0[1][1].endswith("option::Option"):
+            if t0[1][2] == "None":
+                return
+            n_src[0] += 1
+            # built in this body: every construction site of Some must sit behind the Valid test
+            sites = [d[1] for d in b.defs.get(0, ()) if d[0] == "assign" and d[4][0] == "agg" and d[4][1][0] == "adt" and d[4][1][2] == "Some"]
+            for bb in sites:
+                ok = False
+                for g, cond, pol in PN._cmp_guards(b, bb):
+                    k = _valid_test(F, cond)
+                    if k and ((k == "eq") == bool(pol)):
+                        ok = True
+                if not ok:
+                    problems.append(("Some(path) is built without a dominating `check_path_expiry(..) == Valid` test", b.term_span(bb).loc))
+            return
+        if t0[0] == "call" and re.search(r"::(find|rfind)$", t0[1]) and len(t0[2]) == 2:
+            n_src[0] += 1
+            cl = [n for n in walk(t0[2][1]) if n[0] == "agg" and isinstance(n[1], tuple) and len(n[1]) > 1 and "{closure#" in str(n[1][1])]
+            if not (cl and closure_ok(cl[0][1][1])):
+                problems.append(("find() predicate is not `check_path_expiry(..) == Valid`", F.loc(BEST)))
+            return
+        if t0[0] == "call" and re.search(r"::(or_else|or)$", t0[1]) and len(t0[2]) == 2:
+            src(t[2][0])
+            y = t0[2][1]
+            cl = [n for n in walk(y) if n[0] == "agg" and isinstance(n[1], tuple) and len(n[1]) > 1 and "{closure#" in str(n[1][1])]
+            if cl and F.has_body(cl[0][1][1]):
+                qb = F.body(cl[0][1][1])
+                o2 = strip_sites(qb.local_origin(0))
+                if not (o2[0] == "agg" and o2[1][2] == "None"):
+                    n_src[0] += 1
+                    problems.append(("fallback %s yields a path that is not tested for validity: %s" % (short(cl[0][1][1]), fmt(o2, 80)), F.loc(cl[0][1][1])))
+            else:
+                src(t[2][1])
+            return
+        n_src[0] += 1
+        problems.append(("unrecognised source of the best path: %s" % fmt(t0, 100), F.loc(BEST)))
+
+    src(b.local_origin(0))
+    ok = not problems
+    R.ob("GS-best-valid", "best_path yields Some(p) only behind check_path_expiry(p) == Valid (%d source(s))" % n_src[0], ok, True,
+         {"rule": "GS-best-valid", "fn": BEST, "sources": n_src[0], "problems": [p[0] for p in problems], "holds": ok})
+    for msg, loc in problems:
+        R.violation("GS-best-valid", BEST + "/" + re.sub(r"[^A-Za-z ]", "", msg)[:50], "PathSet::best_path: %s — a near-expiry or expired path can be chosen as (or kept as) "
+                    "the active path and handed to senders" % msg, loc)
+    R.floor("GS-best-valid", n_src[0], 1, "sources of Some(path) in PathSet::best_path")
+
+
+BACKOFF = "scion_sdk_utils::backoff::ExponentialBackoff::duration"
+
+
+def backoff_ceiling_rule(F, R):
+    """UB-backoff: the delay ExponentialBackoff::duration returns is `min(_, config.maximum_delay_secs)` as its outermost
+    operation — whatever is added (jitter) is added before the clamp, so the configured ceiling bounds the re-attempt delay"""
+    b = F.body(BACKOFF)
+    if b is None:
+        R.anchor_missing(BACKOFF)
+        return
+    R.fn(BACKOFF)
+    o = strip_sites(b.local_origin(0))
+    ok, why = False, fmt(o, 160)
+    x = o
+    # peel the Duration constructor(s)
+    while x[0] == "call" and re.search(r"Duration::(from_secs_f32|from_secs_f64|from_secs|from_millis)$", x[1]) and len(x[2]) == 1:
+        x = PN.strip_casts(x[2][0])
+        if x[0] == "call" and re.search(r"::(min|clamp)$", x[1]):
+            args = [PN._peel_refs(a) for a in x[2]]
+            lim = args[-1]
+            if lim[0] == "field" and lim[2] == "maximum_delay_secs":
+                ok = True
+            break
+    R.ob("UB-backoff", "ExponentialBackoff::duration = Duration::from_secs_f32(min(.., config.maximum_delay_secs))", ok, True,
+         {"rule": "UB-backoff", "fn": BACKOFF, "result": why, "holds": ok})
+    if not ok:
+        R.violation("UB-backoff", BACKOFF, "the returned delay is not clamped by maximum_delay_secs as the last step (%s): re-attempts can be scheduled later "
+                    "than the configured backoff ceiling" % why, F.loc(BACKOFF))
 
 
 def _on_field(b, c, fld):
